@@ -89,9 +89,11 @@ class Node:
         if self.yaml_node.tag == 'tag:yaml.org,2002:str':
             return str(self.yaml_node.value)
         if self.yaml_node.tag == 'tag:yaml.org,2002:int':
-            return int(self.yaml_node.value)
+            return cast(int, yaml.constructor.SafeConstructor(
+                ).construct_yaml_int(self.yaml_node))
         if self.yaml_node.tag == 'tag:yaml.org,2002:float':
-            return float(self.yaml_node.value)
+            return cast(float, yaml.constructor.SafeConstructor(
+                ).construct_yaml_float(self.yaml_node))
         if self.yaml_node.tag == 'tag:yaml.org,2002:bool':
             return self.yaml_node.value in ['TRUE', 'True', 'true']
         if self.yaml_node.tag == 'tag:yaml.org,2002:null':
@@ -345,14 +347,28 @@ class Node:
             cls: The class we're sweetening.
         """
         def matches(value_node: yaml.Node, default: Any) -> bool:
+            if isinstance(value_node, yaml.SequenceNode):
+                return (
+                        isinstance(default, list) and not default and
+                        not value_node.value)
+
+            if isinstance(value_node, yaml.MappingNode):
+                return (
+                        isinstance(default, dict) and not default and
+                        not value_node.value)
+
             if value_node.tag == 'tag:yaml.org,2002:null':
                 return default is None
 
             if value_node.tag == 'tag:yaml.org,2002:int':
-                return int(value_node.value) == int(default)
+                return (
+                        type(default) is int and
+                        Node(value_node).get_value() == default)
 
             if value_node.tag == 'tag:yaml.org,2002:float':
-                return float(value_node.value) == float(default)
+                return (
+                        type(default) is float and
+                        Node(value_node).get_value() == default)
 
             if value_node.tag == 'tag:yaml.org,2002:bool':
                 if default is False:
@@ -369,7 +385,10 @@ class Node:
                             str(value_node.value).lower() == 'on')
                 return False
 
-            return bool(value_node.value == default)
+            if value_node.tag == 'tag:yaml.org,2002:str':
+                return type(default) is str and value_node.value == default
+
+            return False
 
         defaults = defaulted_attributes(cls)
 
